@@ -13,6 +13,28 @@ from harness.c04lib import FORMATS
 # the property on the real implementation, one (entry point, value)
 # ---------------------------------------------------------------------------
 
+def robust_bad_idx(*a, **kw):
+    """vlib.coq_bad_idx, repeated when Coq was cut short by the machine rather than by an error of the case file: a coqc
+    that is killed (memory pressure / signal on a loaded host) or times out leaves NO diagnostic, a case file that does
+    not check always prints one (`File ..., line ...: Error: ...`).  Up to three attempts; a result with a diagnostic is
+    returned as it is."""
+    import time as _t
+    bad, log = None, ""
+    for attempt in range(3):
+        bad, log = vlib.coq_bad_idx(*a, **kw)
+        if bad is not None:
+            return bad, log
+        txt = (log or "").strip()
+        cut_short = (not txt) or any(w in txt for w in ("Killed", "Terminated", "Error 137", "Error 124", "Error 143",
+                                                         "Cannot allocate memory", "Out of memory", "not run"))
+        if "Error:" in txt and "File " in txt:
+            cut_short = False
+        if not cut_short:
+            break
+        _t.sleep(5 + 10 * attempt)
+    return bad, log
+
+
 def _exc(e: BaseException) -> str:
     out = f"{type(e).__name__}: {str(e)[:200]}"
     seen = 0
@@ -570,7 +592,7 @@ def correspondence_cases(ctx: vlib.Ctx, n_schemas: int, n_values: int):
 def correspondence(ctx: vlib.Ctx):
     cases, descr = correspondence_cases(ctx, ctx.budget(40, 300), ctx.budget(3, 4))
     name = "format-model-vs-impl-and-libraries"
-    bad, log = vlib.coq_bad_idx("c04_fmt", "Fmt FmtCases", "", "", cases, "case_ok", "fcase", shard=100, timeout=1800,
+    bad, log = robust_bad_idx("c04_fmt", "Fmt FmtCases", "", "", cases, "case_ok", "fcase", shard=100, timeout=1800,
                                 needs=["theories/Fmt.vo", "theories/FmtCases.vo"])
     ctx.count(n=len(cases))
     if bad is None:
@@ -616,7 +638,7 @@ def k11_validation(ctx: vlib.Ctx):
                     descr.append((d, f, ta, codec))
     okf = ("fun c => match c with (d, h, ta, f, cc, e) => match mname d h ta f cc, e with "
            "| Ok (KStr n), Some m => String.eqb n m | Raise _, None => true | _, _ => false end end")
-    bad, log = vlib.coq_bad_idx("c04_k11", "PyK_names K11Proofs", "From VerifGen Require Import K11.", "", cases, okf,
+    bad, log = robust_bad_idx("c04_k11", "PyK_names K11Proofs", "From VerifGen Require Import K11.", "", cases, okf,
                                 "dir * string * list kv * string * kv * option string", shard=400, timeout=1800,
                                 needs=["theories/K11Proofs.vo"])
     ctx.count(n=len(cases))
@@ -695,7 +717,7 @@ def k40_validation(ctx: vlib.Ctx):
         L.unload_module("c04_k16_probe")
     okf = ("fun (c: bool * bool * bool * list cinstr) => match c with (dec, b_codec, b_m, got) => "
            "prog_eqb (if dec then decode_prog b_codec b_m else encode_prog b_codec b_m) got end")
-    bad, log = vlib.coq_bad_idx("c04_k40", "CodecWrap", "From VerifGen Require Import K40.", "", cases, okf,
+    bad, log = robust_bad_idx("c04_k40", "CodecWrap", "From VerifGen Require Import K40.", "", cases, okf,
                                 "bool * bool * bool * list cinstr", shard=400, timeout=1800, needs=["theories/CodecWrapProofs.vo"])
     ctx.count(n=len(cases))
     if bad is None:
@@ -920,7 +942,7 @@ def kwargs_correspondence(ctx: vlib.Ctx):
                 L.unload_module(modname)
     okf = ("fun (c: bool * fmt * Z * option Z * option Z) => match c with (dg, F, config, call, obs) => "
            "oz_eqb (kw_used (if dg then ret_dialect else ret_plain) (has_encoder F) (has_kwargs F) config call) obs end")
-    bad, log = vlib.coq_bad_idx("c04_kw", "Fmt EncKwargs EncKwargsProofs", "From VerifGen Require Import K104a K104b.",
+    bad, log = robust_bad_idx("c04_kw", "Fmt EncKwargs EncKwargsProofs", "From VerifGen Require Import K104a K104b.",
                                 "Open Scope Z_scope.", cases, okf, "bool * fmt * Z * option Z * option Z", shard=400,
                                 timeout=1800, needs=["theories/EncKwargsProofs.vo"])
     ctx.count(n=len(cases))
@@ -1108,7 +1130,7 @@ def mixin_program_correspondence(ctx: vlib.Ctx):
            "match assoc_fmt F source_mixins with "
            "| Some m => prog_eqb (if is_from then mixin_from_prog m dg else mixin_to_prog m dg) got "
            "| None => false end end")
-    bad, log = vlib.coq_bad_idx("c04_mp", "Fmt FmtDialectSource FmtEntries CodecWrap EncKwargs MixinWrap",
+    bad, log = robust_bad_idx("c04_mp", "Fmt FmtDialectSource FmtEntries CodecWrap EncKwargs MixinWrap",
                                 "From VerifGen Require Import K104a K104b K104c.", "", cases, okf,
                                 "bool * fmt * bool * list cinstr", shard=400, timeout=1800, needs=["theories/MixinWrap.vo"])
     ctx.count(n=len(cases))
@@ -1207,10 +1229,17 @@ def run(ctx: vlib.Ctx):
         "discriminated unions (Annotated Discriminator, str tags), Literal tags, Any positions, lists, str-keyed mappings, "
         "Optional, text-rendered leaves, the format dialects merged with a caller's dialect (both directions). Plain unions, "
         "non-str mapping keys, class-level discriminators / base-typed polymorphic fields, "
-        "namedtuple_as_dict, orjson_options are covered by the oracle only",
+        "namedtuple_as_dict, the effect of individual orjson option bits on the document are covered by the oracle only "
+        "(which keyword value reaches the encoder is in the model: EncKwargs.v over K104b)",
         "the format libraries and the stdlib leaf codecs are oracles with assumed laws (hypotheses of the theorems)",
         "tools/kernels/k41_format_dialects.py (AST reader of the three dialect classes), tools/kernels/k40_codec_wrapper.py "
         "(symbolic walk of the codec wrapper generator) and coq/theories/CodecWrap.v (meaning of the emitted skeleton)",
+        "tools/kernels/k104a_format_entries.py (AST reader of codecs/*.py and mixins/*.py: dialect rule, library function, "
+        "builder params, plain method bodies), k104b_encoder_kwargs.py (return-statement decisions of the pack-method generator), "
+        "k104c_mixin_decoder.py (structural recogniser: where the unpack-method generator emits `d = decoder(d)`; the program it "
+        "emits is a fixed template once the structure is recognised) - fail-closed readers, validated against the live objects / "
+        "the emitted method text on every run; coq/theories/FmtEntries.v (rule_lsem: meaning of a dialect rule), MixinWrap.v "
+        "(programs of the mixin methods), EncKwargs.v (which keyword value reaches the encoder)",
         "tools/kernels/k11_method_names.py: translator extension (f-strings over str, +=, str-subclass construction) "
         "and coq/theories/PyK_names.v",
     ]
